@@ -277,7 +277,8 @@ def split_unit(value):
     returns:
         tuple
     """
-    r = re.search('^(\-?[\d\.]+)(.*)$', str(value))
+    # (the exponent is what str() prints for a small expression result: 1e-05em)
+    r = re.search('^(\-?[\d\.]+(?:e[-+]?\d+)?)(.*)$', str(value))
     return r.groups() if r else ('', '')
 
 
